@@ -112,15 +112,15 @@ def hull(vp, W, H):
     return (min(0, vp[0]), min(0, vp[1]), max(W, vp[2]), max(H, vp[3]))
 
 
-def save_bytes(psd, ck=None):
+def save_bytes(psd, count=None):
     """bytes of psd.save(); documents whose save() raises while refreshing the merged image (CMYK: finding of C17)
     are written through the record writer so that reopen-independence of the COMPOSITE can still be examined"""
     bio = io.BytesIO()
     try:
         psd.save(bio)
     except Exception as e:
-        if ck is not None:
-            ck.count("save() raised %s while refreshing the merged image (C17 finding); record written directly" % type(e).__name__)
+        if count is not None:
+            count("save() raised %s while refreshing the merged image (C17 finding); record written directly" % type(e).__name__)
         psd._update_record()
         bio = io.BytesIO()
         psd._record.write(bio)
@@ -128,68 +128,140 @@ def save_bytes(psd, ck=None):
 
 
 # ------------------------------------------------------------------------------------ the laws on one generated doc
-def laws_generated(ck, spec, col, al, report):
-    """report(kind, input_dict, observed, expected)"""
+LAWS = (["crop"] * 3 + ["noop:hidden", "noop:alpha0", "noop:opacity0", "noop:outside", "wrap",
+                        "compression:RAW", "compression:ZIP", "compression:ZIP_WITH_PREDICTION", "reopen"])
+
+
+def run_law(spec, col, al, law, seed, counts=None, full=None):
+    """One instance of one law, fully determined by (document, backdrop, law, seed).
+    -> list of (kind, input_extra, observed, expected) failures (empty = the law holds on this instance)"""
+    import random
+
     from psd_tools import PSDImage
     from psd_tools.constants import Compression
 
-    rng = ck.rng
+    rng = random.Random(seed)
     W, H = spec["size"]
-    base_in = {"spec": spec, "color": col, "alpha": al}
-    full = cc.run_impl(cc.build_doc(spec), color=col, alpha=al)
-    rr = cc.check_range(*full)
-    if rr:
-        report("range", base_in, rr, "finite values within [0,1]")
-    # --- viewport = crop
-    for _ in range(3):
+    out = []
+
+    def cnt(k):
+        if counts is not None:
+            counts(k)
+    if full is None:
+        full = cc.run_impl(cc.build_doc(spec), color=col, alpha=al)
+    if law == "crop":
         vp, vkind = gen_viewport(rng, W, H)
         big = hull(vp, W, H)
         rb = cc.run_impl(cc.build_doc(spec), viewport=big, color=col, alpha=al)
         rv = cc.run_impl(cc.build_doc(spec), viewport=tuple(vp), color=col, alpha=al)
-        ck.count("law:crop:" + vkind)
+        cnt("law:crop:" + vkind)
         d = cc.same_result(cc.crop(rb, big, vp), rv)
         if d:
-            report("viewport-not-crop", dict(base_in, viewport=vp, full_viewport=list(big)), d, "composite(viewport) == crop(composite(larger viewport))")
+            out.append(("viewport-not-crop", {"viewport": vp, "full_viewport": list(big)}, d, "composite(viewport) == crop(composite(larger viewport))"))
         d = cc.same_result(cc.crop(rb, big, (0, 0, W, H)), full)
         if d:
-            report("viewport-not-crop", dict(base_in, viewport=[0, 0, W, H], full_viewport=list(big)), d, "composite(canvas) == crop(composite(larger viewport))")
-        rr = cc.check_range(*rb)
-        if rr:
-            report("range", dict(base_in, viewport=list(big)), rr, "finite values within [0,1]")
-    # --- no-op layers
-    for kind in ("hidden", "alpha0", "opacity0", "outside"):
+            out.append(("viewport-not-crop", {"viewport": [0, 0, W, H], "full_viewport": list(big)}, d, "composite(canvas) == crop(composite(larger viewport))"))
+        for r, v in ((rb, list(big)), (full, None)):
+            rr = cc.check_range(*r)
+            if rr:
+                out.append(("range", {"viewport": v}, rr, "finite values within [0,1]"))
+    elif law.startswith("noop:"):
+        kind = law[5:]
         s2 = insert_noop(rng, spec, kind)
-        if s2 is None:
-            continue
-        ck.count("law:noop:" + kind)
-        r2 = cc.run_impl(cc.build_doc(s2), color=col, alpha=al)
-        d = cc.same_result(full, r2, with_shape=(kind != "opacity0"))
-        if d:
-            report("noop-layer-changes-result:" + kind, dict(base_in, spec2=s2), d, "same alpha and alpha*colour as without the layer")
-    # --- pass-through wrap
-    s2 = wrap_run(rng, spec)
-    if s2 is not None:
-        ck.count("law:wrap")
-        r2 = cc.run_impl(cc.build_doc(s2), color=col, alpha=al)
-        d = cc.same_result(full, r2)
-        if d:
-            report("passthrough-wrap-changes-result", dict(base_in, spec2=s2), d, "same result as unwrapped")
-    # --- channel compression
-    for comp in (Compression.RAW, Compression.ZIP, Compression.ZIP_WITH_PREDICTION):
-        ck.count("law:compression:" + comp.name)
+        if s2 is not None:
+            cnt("law:noop:" + kind)
+            r2 = cc.run_impl(cc.build_doc(s2), color=col, alpha=al)
+            d = cc.same_result(full, r2, with_shape=(kind != "opacity0"))
+            if d:
+                out.append(("noop-layer-changes-result:" + kind, {"spec2": s2}, d, "same alpha and alpha*colour as without the layer"))
+    elif law == "wrap":
+        s2 = wrap_run(rng, spec)
+        if s2 is not None:
+            cnt("law:wrap")
+            r2 = cc.run_impl(cc.build_doc(s2), color=col, alpha=al)
+            d = cc.same_result(full, r2)
+            if d:
+                out.append(("passthrough-wrap-changes-result", {"spec2": s2}, d, "same result as unwrapped"))
+    elif law.startswith("compression:"):
+        comp = Compression[law[12:]]
+        cnt("law:" + law)
         r2 = cc.run_impl(cc.build_doc(spec, compression=comp), color=col, alpha=al)
         d = cc.same_result(full, r2)
         if d:
-            report("compression-changes-result", dict(base_in, compression=comp.name), d, "same result as with RLE channels")
-    # --- save + reopen
-    comp = rng.choice([Compression.RAW, Compression.RLE, Compression.ZIP, Compression.ZIP_WITH_PREDICTION])
-    data = save_bytes(cc.build_doc(spec, compression=comp), ck)
-    p2 = PSDImage.open(io.BytesIO(data))
-    ck.count("law:reopen")
-    r2 = cc.run_impl(p2, color=col, alpha=al)
-    d = cc.same_result(full, r2)
-    if d:
-        report("reopen-changes-result", dict(base_in, compression=comp.name), d, "same result after save + open")
+            out.append(("compression-changes-result", {"compression": comp.name}, d, "same result as with RLE channels"))
+    elif law == "reopen":
+        comp = rng.choice([Compression.RAW, Compression.RLE, Compression.ZIP, Compression.ZIP_WITH_PREDICTION])
+        p2 = PSDImage.open(io.BytesIO(save_bytes(cc.build_doc(spec, compression=comp), counts)))
+        cnt("law:reopen")
+        d = cc.same_result(full, cc.run_impl(p2, color=col, alpha=al))
+        if d:
+            out.append(("reopen-changes-result", {"compression": comp.name}, d, "same result after save + open"))
+    return out
+
+
+def canvas_variants(spec):
+    W, H = spec["size"]
+    for nw, nh in ((W - 1, H), (W, H - 1)):
+        if nw >= 1 and nh >= 1:
+            s = copy.deepcopy(spec)
+            s["size"] = [nw, nh]
+            yield s
+
+
+def shrink_law(spec, col, al, law, kind, seed0=0, budget=900):
+    """smaller document (fewer / simpler layers, smaller canvas, default backdrop) on which some instance of the
+    same law still fails in the same way.  -> (spec, col, al, seed) or None"""
+    state = {"n": 0}
+
+    def failing_seed(v, c, a):
+        for sd in [seed0] + list(range(10)):
+            if state["n"] >= budget:
+                return None
+            state["n"] += 1
+            try:
+                if any(k == kind for k, _, _, _ in run_law(v, c, a, law, sd)):
+                    return sd
+            except Exception:
+                pass
+        return None
+    best = None
+    if failing_seed(spec, 1.0, 0.0) is not None:
+        col, al = 1.0, 0.0
+    changed = True
+    while changed and state["n"] < budget:
+        changed = False
+        for v in list(canvas_variants(spec)) + list(cc.variants(spec)):
+            sd = failing_seed(v, col, al)
+            if sd is not None:
+                spec, best, changed = v, sd, True
+                break
+            if state["n"] >= budget:
+                break
+    if best is None:
+        best = failing_seed(spec, col, al)
+    return None if best is None else (spec, col, al, best)
+
+
+def laws_generated(ck, spec, col, al, report, shrunk_kinds):
+    """report(kind, input_dict, observed, expected)"""
+    full = cc.run_impl(cc.build_doc(spec), color=col, alpha=al)
+    for law in LAWS:
+        seed = ck.rng.randrange(1 << 30)
+        for kind, extra, observed, expected in run_law(spec, col, al, law, seed, ck.count, full):
+            inp = dict({"spec": spec, "color": col, "alpha": al, "law": law, "seed": seed}, **extra)
+            fl = {"kind": kind, "input": inp, "observed": observed, "expected": expected}
+            if kind not in shrunk_kinds and ck.classify(fl) is None:
+                shrunk_kinds.add(kind)  # shrink the first unlisted failure of each kind
+                small = shrink_law(spec, col, al, law, kind, seed)
+                if small is not None:
+                    s_spec, s_col, s_al, s_seed = small
+                    for k2, e2, o2, x2 in run_law(s_spec, s_col, s_al, law, s_seed):
+                        if k2 == kind:
+                            inp = dict({"spec": s_spec, "color": s_col, "alpha": s_al, "law": law, "seed": s_seed,
+                                        "shrunk_from_layers": cc.count_nodes(spec["layers"])}, **e2)
+                            observed, expected = o2, x2
+                            break
+            report(kind, inp, observed, expected)
     return full
 
 
@@ -486,6 +558,7 @@ def run():
         ck.fail(kind, inp, observed, expected)
 
     # ---------------- generated documents
+    shrunk_kinds = set()
     t0 = time.time()
     ndocs = 9000 if thorough else 1100
     model_cases = []
@@ -494,7 +567,7 @@ def run():
         col, al = cc.gen_backdrop(ck.rng, cc.NCH[spec["mode"]])
         ck.count("mode:" + spec["mode"] + ("+A" if spec["docalpha"] else ""))
         try:
-            full = laws_generated(ck, spec, col, al, report)
+            full = laws_generated(ck, spec, col, al, report, shrunk_kinds)
         except Exception as e:
             report("raises-" + type(e).__name__, {"spec": spec, "color": col, "alpha": al}, repr(e)[:300], "the laws are evaluable")
             continue
@@ -616,6 +689,11 @@ def replay(path):
         return 1
     spec, col, al = inp["spec"], _col(inp["color"]), inp["alpha"]
     print("document:", json.dumps(spec))
+    print("backdrop colour / alpha:", col, al)
+    if "law" in inp and "seed" in inp:
+        print("law instance:", inp["law"], "seed", inp["seed"])
+        for kind, extra, observed, expected in run_law(spec, col, al, inp["law"], inp["seed"]):
+            print("now:", kind, "|", observed, "| expected:", expected)
     full = cc.run_impl(cc.build_doc(spec), color=col, alpha=al)
     if "spec2" in inp:
         r2 = cc.run_impl(cc.build_doc(inp["spec2"]), color=col, alpha=al)
